@@ -161,6 +161,7 @@ def run(prop, tier, seed):
                     "(InvC01-C08, InvNodes), FrozenImmutable (a frozen graph changes only through the pinned add family, KF5)")
     jobs = []
     nst = 0
+    capped = False
     for cfg in (["MC_core_tiny.cfg"] if tier == "quick" else ["MC_core_small.cfg", "MC_core_loops.cfg", "MC_core_3n.cfg"]):
         states, alphabet = mc_states(chk, cfg, ["InvRefines", "InvC03", "InvC04", "InvC05"])
         nmax = max([n for c in alphabet for n in drivers.call_nodes(c)] or [2])
@@ -168,6 +169,9 @@ def run(prop, tier, seed):
         grid = drivers.grid_of(alphabet)
         if tier == "quick":
             states = rng.sample(states, min(len(states), 50))
+        elif len(states) > 1200:
+            states = rng.sample(states, 1200)      # ~100 calls per state and copy: the full sets took > 2 h
+            capped = True
         for i, st in enumerate(states):
             nst += 1
             jobs.append((rng.randrange(1 << 30), st["dir"], st["rem"], st["hist"], LABS[(i + seed) % len(LABS)], known, grid))
@@ -187,6 +191,6 @@ def run(prop, tier, seed):
     rule = ("each case is one (graph state, entry point, argument shape) applied to a deep copy of the state: every public callable "
             "inherited from networkx, every blocked name and the blocked module-level functions on the live graph, every mutator "
             "(networkx ones, add_interaction and bulk helpers, node-attribute setters) on a frozen copy; states are all reachable "
-            "states of the bounded model (50 sampled in the quick tier) plus seeded random graphs; non-trivial = the state has at "
+            "states of the bounded model (50 sampled in the quick tier, at most 1,200 per configuration in the thorough tier) plus seeded random graphs; non-trivial = the state has at "
             "least one interaction; distinct = distinct digests of (observation, call)")
-    return chk.finish(rule, exhaustive=(tier == "thorough"))
+    return chk.finish(rule, exhaustive=(tier == "thorough" and not capped))
